@@ -6,6 +6,8 @@ the OBSERVED outputs; in addition every component evaluation inside the run is i
 actually saw are judged against the outputs as they were at that moment (RunOnce / Gauss-Seidel / Newton stacks)."""
 import random
 
+import numpy as np
+
 from .. import ombuild as ob
 from .. import sysobs as so
 from ..sysdriver import gen_model, run_tlc_judge
@@ -13,11 +15,12 @@ from ..tlc import MachineryError
 from ..util import pmap, quiet, split
 
 OPTS = {'storage': ['dense', 'rowscols', 'csc'], 'prom_frac': .7, 'cyc_frac': .35, 'vois': False}
+OPTS_SCALED = dict(OPTS, scaling=True)     # every third model also carries solver scaling (ref/ref0/res_ref)
 
 
 def observe(seed):
     from openmdao.core.analysis_error import AnalysisError
-    md, ref, rng = gen_model(seed, OPTS)
+    md, ref, rng = gen_model(seed, OPTS_SCALED if seed % 3 == 0 else OPTS)
     if md is None:
         return {'skip': 'rejected'}
     # Jacobi-type solvers transfer once per iteration: the in-run statement is read "as of the last transfer" and
@@ -27,7 +30,7 @@ def observe(seed):
     try:
         p = ob.build(md, {'mode': 'auto'})
         p.final_setup()
-        Aff, MF, Imp = ob.classes()
+        Aff, MF, Imp, Bil, MFBil = ob.classes()
         comps = {}
         for c in md['comps']:
             if c['kind'] != 'ivc':
@@ -36,7 +39,21 @@ def observe(seed):
         def snap(self):
             c = self.options['comp']
             if len(snaps) < 12:
-                outs = [p.get_val(ob.out_path(md, o['id'])).copy() for o in md['outs']]
+                # inside a run the root vectors are in solver-scaled units (only the evaluated component's own
+                # slices are physical): bring the other components' outputs back to physical units
+                outs = []
+                for o in md['outs']:
+                    v = p.get_val(ob.out_path(md, o['id'])).copy()
+                    if md.get('scaled') and o['comp'] != c['id'] and (o.get('ref') is not None or o.get('ref0') is not None):
+                        def arr(x, dflt):
+                            if x is None:
+                                return dflt
+                            if isinstance(x, dict):
+                                return np.array([ob.fl(t) for t in x['arr']]).reshape(v.shape)
+                            return ob.fl(x)
+                        r, r0 = arr(o.get('ref'), 1.0), arr(o.get('ref0'), 0.0)
+                        v = r0 + (r - r0) * v
+                    outs.append(v)
                 ins = {iid: self._inputs[md['ins'][iid]['name']].copy() for iid in c['ins']}
                 snaps.append((c['id'], outs, ins))
         orig = {}
